@@ -312,25 +312,31 @@ def Mon.observe (m : Mon) (ws : List String) (fields : List (String × String)) 
       let fails := if !genuine && ok && !payOk then fails ++ [("C07", "modified record decrypted to other bytes")] else fails
       let fails := if r.part != part && ok then fails ++ [("C06", "record of another partition decrypted")] else fails
       -- remember that this session's cache may now alias this IK as "latest" (F-11)
-      let loadedExact := cs.any fun c => c.startsWith s!"L:ik{part}@{r.ik}:1"
+      -- every IK of this partition the operation loaded by its exact stamp (a tampered record may name
+      -- another stamp than the genuine one)
+      let loadedStamps : List Int := cs.filterMap fun c =>
+        if c.startsWith s!"L:ik{part}@" && c.endsWith ":1" then
+          ((((c.splitOn "@").getD 1 "").splitOn ":").headD "").toInt?
+        else none
       let owner : Nat := if p.sharedIK then 1000000 + f else s
-      let key := (owner, s!"ik{part}", r.ik)
       -- F-11 is: a key loaded by its exact stamp becomes the alias when the cache has NO alias for the id
       -- yet, or an OLDER one.  On an unbounded cache whose alias already points to a newer key nothing of
       -- the sort may happen: an encrypt under the old key afterwards is not that finding.
-      let aliasMoves : Bool := match m.newest.lookup (owner, s!"ik{part}") with
-        | none => true
-        | some c => c < r.ik
       -- (alias already AT this key: the decrypt's reload refreshes the very entry the encrypt path treats as
       -- latest - the same finding seen from the other side)
-      let aliasHere : Bool := (m.newest.lookup (owner, s!"ik{part}")) == some r.ik
-      let m' := if loadedExact && (aliasMoves || aliasHere || p.ikKind.isSome) then
+      let m' := loadedStamps.foldl (fun (m' : Mon) (ikc : Int) =>
+        let key := (owner, s!"ik{part}", ikc)
+        let cur := m'.newest.lookup (owner, s!"ik{part}")
+        let aliasMoves : Bool := match cur with
+          | none => true
+          | some c => c < ikc
+        let aliasHere : Bool := cur == some ikc
+        if aliasMoves || aliasHere || p.ikKind.isSome then
           { m' with fills := (key, "latest-alias-installed-by-decrypt") :: m'.fills.filter (fun (k, _) => k != key),
-                    newest := if aliasMoves then ((owner, s!"ik{part}"), r.ik) :: m'.newest.filter (fun (k, _) => k != (owner, s!"ik{part}"))
+                    newest := if aliasMoves then ((owner, s!"ik{part}"), ikc) :: m'.newest.filter (fun (k, _) => k != (owner, s!"ik{part}"))
                               else m'.newest }
-        else if loadedExact && (m.newest.lookup (owner, s!"ik{part}")).any (· > r.ik) then
-          { m' with fills := m'.fills.filter (fun (k, _) => k != key) }
-        else m'
+        else
+          { m' with fills := m'.fills.filter (fun (k, _) => k != key) }) m'
       let fails := match m.lastOp with
         | some (pw, true) =>
           if pw.take 3 == ws.take 3 && genuine && kvOf pw "mut" == mut_ && noFault && ok && p.cacheIK && !m.corrupted && cs.any isExternal then
